@@ -49,6 +49,10 @@ const hopRespFn = "(*Proxy).getNextReponseHop"
 
 func runC02(c *Ctx) {
 	w := c.w
+	// the Via list a response pops is an object of that response alone (shared with C14); the topmost Via is found through
+	// the header-name comparator whatever its spelling (shared with C17)
+	c14DecoderPurityFrom(c, "ParseVia")
+	ruleComparatorDiscipline(c, "comparator-discipline")
 	hm := c.fn("pop-once", "(*Proxy).HandleMessage")
 	if hm != nil {
 		resp := w.under(w.assumeRequest(false))
